@@ -98,7 +98,61 @@ func Main(f vh.Flags) {
 		c := Execute(scn, func(k int) int { return cr.Intn(k) }, 600)
 		record(out, &Result{Case: *c, Viol: Monitors(c)})
 	}
+	// systematic part: for a few small scenarios, EVERY schedule that deviates from the default one ("lowest enabled
+	// mailbox first, externals last") in at most `devs` places — the analogue of a pre-emption bound
+	devs, per := 1, 60
+	if f.Tier == "thorough" {
+		devs, per = 2, 1500
+	}
+	explored := 0
+	for i := 0; i < 6; i++ {
+		cr, _ := rng.Derive()
+		scn := template(cr)
+		explored += Explore(scn, devs, per, func(c *Case) { record(out, &Result{Case: *c, Viol: Monitors(c)}) })
+	}
+	out.Count("systematic_schedules", vh.Bucket(explored))
 	out.Close()
+}
+
+// Explore runs scn under every schedule with at most devs non-default choices (depth-first over the positions of the
+// deviations), at most limit runs; returns the number of runs.
+func Explore(scn *Scenario, devs, limit int, emit func(*Case)) int {
+	type dev struct{ pos, val int }
+	count := 0
+	var rec func(fixed []dev, from int)
+	rec = func(fixed []dev, from int) {
+		if count >= limit {
+			return
+		}
+		var widths []int
+		k := 0
+		c := Execute(scn, func(n int) int {
+			i := 0
+			for _, d := range fixed {
+				if d.pos == k {
+					i = d.val
+				}
+			}
+			if i >= n {
+				i = n - 1
+			}
+			widths = append(widths, n)
+			k++
+			return i
+		}, 600)
+		emit(c)
+		count++
+		if len(fixed) >= devs {
+			return
+		}
+		for pos := from; pos < len(widths) && count < limit; pos++ {
+			for val := 1; val < widths[pos] && count < limit; val++ {
+				rec(append(append([]dev(nil), fixed...), dev{pos, val}), pos+1)
+			}
+		}
+	}
+	rec(nil, 0)
+	return count
 }
 
 func record(out *vh.Out, r *Result) {
